@@ -143,7 +143,9 @@ def apply_contract(ctx, cs, fn, args, kwargs):
     if isinstance(target, type) and c.returns is None:
         raise Unsupported("constructor contract needs a returns shape")
     result = None
-    if c.pure is not None:
+    if c.effect is not None:
+        result = c.effect(ctx, ns)
+    elif c.pure is not None:
         result = pure_result(ctx, c, ns)
     elif c.returns is not None:
         result = c.returns.make(ctx, ctx.fresh_name("ret@%s" % c.short))
@@ -229,10 +231,13 @@ def exec_loop_with_invariant(ctx, s, fr, spec, kind, iterable=None):
                 return
             except E._Continue:
                 pass
+            if spec.tail is not None:
+                ctx.call_spec(spec.tail, ns_now())
             ctx.prove(base + "/inv-keep", ctx.as_goal(ctx.call_spec(spec.inv, ns_now())))
             if spec.variant is not None:
                 v1 = ctx.call_spec(spec.variant, ns_now())
-                ctx.prove(base + "/variant", z3.And(int_term(v0) >= 0, int_term(v1) < int_term(v0)))
+                ctx.prove(base + "/variant", z3.And(int_term(v0) >= 0,
+                                                    int_term(v1) <= int_term(v0) - spec.min_decrease))
             raise PathEnd()
         ctx.exec_block(s.orelse, fr)
         return
